@@ -29,7 +29,10 @@ OUT = os.environ.get("VERIF_OUT", HERE)       # evidence/ and replays/ root (ove
 
 def base_name(name: str) -> str:
     """obligation name without line numbers and ordinals (stable under harmless edits)"""
-    return re.sub(r"#\d+$", "", re.sub(r"@L\d+", "", name))
+    name = re.sub(r"#\d+$", "", re.sub(r"@L\d+", "", name))
+    # path tags of the branch-enumerating targets ([lt=False], [eq=T,gt=F,...]): the obligation is the same on every path, and a changed
+    # function may have paths the unchanged one did not have
+    return re.sub(r"\[(?:[\w.:()/ -]+=(?:T|F|True|False)(?:,|(?=\])))+\]", "", name)
 
 
 def _run_target(args):
